@@ -586,4 +586,806 @@ theorem navTraced_spec (d : Int) (root : Option (Snap V)) (path : List String) (
       | ok x => simp only; rw [← h1]; exact ⟨rfl, extra, h2, h3⟩
       | error e => simp only; rw [← h1]; exact ⟨rfl, extra, h2, h3⟩
 
+/-! ## Stable insertion sort -/
+
+theorem assoc_insertField (lt : String → String → Bool) (hirr : ∀ a, lt a a = false) (x : String × α)
+    (l : List (String × α)) (k : String) :
+    assoc k (insertField lt x l) = if x.1 = k then some x.2 else assoc k l := by
+  induction l with
+  | nil => obtain ⟨a, b⟩ := x; simp [insertField, assoc]
+  | cons y r ih =>
+    obtain ⟨a, b⟩ := x
+    obtain ⟨a', b'⟩ := y
+    simp only [insertField]
+    by_cases hlt : lt a' a = true
+    · rw [if_pos hlt]
+      simp only [assoc, ih]
+      by_cases h1 : a' = k
+      · rw [if_pos h1]
+        by_cases h2 : a = k
+        · exfalso; rw [h1, h2, hirr] at hlt; cases hlt
+        · rw [if_neg h2, if_pos h1]
+      · rw [if_neg h1, if_neg h1]
+    · rw [if_neg hlt]
+      simp only [assoc]
+
+theorem assoc_sortFields (lt : String → String → Bool) (hirr : ∀ a, lt a a = false)
+    (l : List (String × α)) (k : String) : assoc k (sortFields lt l) = assoc k l := by
+  induction l with
+  | nil => rfl
+  | cons x r ih =>
+    obtain ⟨a, b⟩ := x
+    simp only [sortFields, assoc_insertField lt hirr, ih, assoc]
+
+theorem plainLt_irrefl (a : String) : plainLt a a = false := by
+  simp [plainLt]
+
+theorem asofLt_irrefl (a : String) : asofLt a a = false := by
+  simp [asofLt]
+
+theorem perm_insertField (lt : String → String → Bool) (x : String × α) (l : List (String × α)) :
+    (insertField lt x l).Perm (x :: l) := by
+  induction l with
+  | nil => exact List.Perm.refl _
+  | cons y r ih =>
+    simp only [insertField]
+    by_cases hlt : lt y.1 x.1 = true
+    · rw [if_pos hlt]
+      exact (List.Perm.cons y ih).trans (List.Perm.swap x y r)
+    · rw [if_neg hlt]
+
+theorem perm_sortFields (lt : String → String → Bool) (l : List (String × α)) :
+    (sortFields lt l).Perm l := by
+  induction l with
+  | nil => exact List.Perm.refl _
+  | cons x r ih =>
+    simp only [sortFields]
+    exact (perm_insertField lt x _).trans (List.Perm.cons x ih)
+
+/-- `x` may stand before `y` -/
+def NotAfter (lt : String → String → Bool) (x y : String × α) : Prop := lt y.1 x.1 = false
+
+theorem sorted_insertField (lt : String → String → Bool)
+    (hasymm : ∀ a b, lt a b = true → lt b a = false)
+    (htrans : ∀ a b c, lt b a = false → lt c b = false → lt c a = false)
+    (x : String × α) (l : List (String × α)) (h : l.Pairwise (NotAfter lt)) :
+    (insertField lt x l).Pairwise (NotAfter lt) := by
+  induction l with
+  | nil => simp [insertField]
+  | cons y r ih =>
+    rw [List.pairwise_cons] at h
+    obtain ⟨h1, h2⟩ := h
+    simp only [insertField]
+    by_cases hlt : lt y.1 x.1 = true
+    · rw [if_pos hlt, List.pairwise_cons]
+      refine ⟨?_, ih h2⟩
+      intro z hz
+      rcases List.mem_cons.mp ((perm_insertField lt x r).mem_iff.mp hz) with hz | hz
+      · rw [hz]; exact hasymm _ _ hlt
+      · exact h1 z hz
+    · rw [if_neg hlt, List.pairwise_cons]
+      have hxy : lt y.1 x.1 = false := by simpa using hlt
+      refine ⟨?_, List.pairwise_cons.mpr ⟨h1, h2⟩⟩
+      intro z hz
+      rcases List.mem_cons.mp hz with hz | hz
+      · rw [hz]; exact hxy
+      · exact htrans _ _ _ hxy (h1 z hz)
+
+theorem sorted_sortFields (lt : String → String → Bool)
+    (hasymm : ∀ a b, lt a b = true → lt b a = false)
+    (htrans : ∀ a b c, lt b a = false → lt c b = false → lt c a = false)
+    (l : List (String × α)) : (sortFields lt l).Pairwise (NotAfter lt) := by
+  induction l with
+  | nil => simp [sortFields]
+  | cons x r ih => exact sorted_insertField lt hasymm htrans x _ ih
+
+theorem asofLt_asymm (a b : String) (h : asofLt a b = true) : asofLt b a = false := by
+  unfold asofLt at *
+  by_cases hb : isBefore a = isBefore b
+  · rw [if_pos hb] at h
+    rw [if_pos hb.symm]
+    have : a < b := by simpa using h
+    simpa using String.lt_asymm this
+  · rw [if_neg hb] at h
+    rw [if_neg (fun c => hb c.symm)]
+    cases hbb : isBefore b with
+    | false => rfl
+    | true => rw [h, hbb] at hb; exact absurd rfl hb
+
+theorem asofLt_trans (a b c : String) (h1 : asofLt b a = false) (h2 : asofLt c b = false) :
+    asofLt c a = false := by
+  unfold asofLt at *
+  cases ha : isBefore a <;> cases hb : isBefore b <;> cases hc : isBefore c <;>
+    simp only [ha, hb, hc, if_true, if_false, Bool.true_eq_false, Bool.false_eq_true, reduceCtorEq] at h1 h2 ⊢
+  all_goals first
+    | rfl
+    | (have h1' : a ≤ b := by simpa using h1
+       have h2' : b ≤ c := by simpa using h2
+       simpa using String.le_trans h1' h2')
+    | cases h1
+    | cases h2
+
+/-! ## `vectorise` -/
+
+theorem vectoriseAll_keys (lt : String → String → Bool) (num : V → Option W) (cs : List (String × Snap V))
+    (fs : List (String × VRow W)) (h : vectoriseAll lt num cs = .ok fs) : fs.map (·.1) = cs.map (·.1) := by
+  induction cs generalizing fs with
+  | nil => simp only [vectoriseAll] at h; cases h; rfl
+  | cons p r ih =>
+    obtain ⟨k, c⟩ := p
+    simp only [vectoriseAll] at h
+    cases hv : vectorise lt num c with
+    | error e => rw [hv] at h; cases h
+    | ok x =>
+      rw [hv] at h
+      simp only at h
+      cases hr : vectoriseAll lt num r with
+      | error e => rw [hr] at h; cases h
+      | ok xs =>
+        rw [hr] at h
+        simp only at h
+        cases h
+        simp only [List.map_cons, ih xs hr]
+
+/-- the fields of the record are the vectorised children, name by name -/
+theorem vectoriseAll_mem (lt : String → String → Bool) (num : V → Option W) (cs : List (String × Snap V))
+    (fs : List (String × VRow W)) (h : vectoriseAll lt num cs = .ok fs) (k : String) (x : VRow W) :
+    (k, x) ∈ fs ↔ ∃ c, (k, c) ∈ cs ∧ vectorise lt num c = .ok x := by
+  induction cs generalizing fs with
+  | nil => simp only [vectoriseAll] at h; cases h; simp
+  | cons p r ih =>
+    obtain ⟨k', c'⟩ := p
+    simp only [vectoriseAll] at h
+    cases hv : vectorise lt num c' with
+    | error e => rw [hv] at h; cases h
+    | ok x' =>
+      rw [hv] at h
+      simp only at h
+      cases hr : vectoriseAll lt num r with
+      | error e => rw [hr] at h; cases h
+      | ok xs =>
+        rw [hr] at h
+        simp only at h
+        cases h
+        simp only [List.mem_cons, ih xs hr]
+        constructor
+        · rintro (h | ⟨c, hc, hcx⟩)
+          · cases h; exact ⟨c', Or.inl rfl, hv⟩
+          · exact ⟨c, Or.inr hc, hcx⟩
+        · rintro ⟨c, hc | hc, hcx⟩
+          · cases hc; rw [hv] at hcx; cases hcx; exact Or.inl rfl
+          · exact Or.inr ⟨c, hc, hcx⟩
+
+theorem vectoriseAll_assoc (lt : String → String → Bool) (num : V → Option W) (cs : List (String × Snap V))
+    (fs : List (String × VRow W)) (h : vectoriseAll lt num cs = .ok fs) (k : String) :
+    (assoc k cs = none → assoc k fs = none) ∧
+    (∀ c, assoc k cs = some c → ∃ x, vectorise lt num c = .ok x ∧ assoc k fs = some x) := by
+  induction cs generalizing fs with
+  | nil => simp only [vectoriseAll] at h; cases h; simp [assoc]
+  | cons p r ih =>
+    obtain ⟨k', c'⟩ := p
+    simp only [vectoriseAll] at h
+    cases hv : vectorise lt num c' with
+    | error e => rw [hv] at h; cases h
+    | ok x' =>
+      rw [hv] at h
+      simp only at h
+      cases hr : vectoriseAll lt num r with
+      | error e => rw [hr] at h; cases h
+      | ok xs =>
+        rw [hr] at h
+        simp only at h
+        cases h
+        obtain ⟨ih1, ih2⟩ := ih xs hr
+        simp only [assoc]
+        by_cases hk : k' = k
+        · rw [if_pos hk, if_pos hk]
+          refine ⟨fun h => (by cases h), fun c hc => ?_⟩
+          cases hc; exact ⟨x', hv, rfl⟩
+        · rw [if_neg hk, if_neg hk]; exact ⟨ih1, ih2⟩
+
+theorem vectoriseAll_ok (lt : String → String → Bool) (num : V → Option W) (cs : List (String × Snap V))
+    (h : ∀ p ∈ cs, ∃ x, vectorise lt num p.2 = .ok x) : ∃ fs, vectoriseAll lt num cs = .ok fs := by
+  induction cs with
+  | nil => exact ⟨[], rfl⟩
+  | cons p r ih =>
+    obtain ⟨k, c⟩ := p
+    obtain ⟨x, hx⟩ := h (k, c) (List.mem_cons_self ..)
+    obtain ⟨xs, hxs⟩ := ih (fun q hq => h q (List.mem_cons_of_mem _ hq))
+    exact ⟨(k, x) :: xs, by simp only [vectoriseAll, hx, hxs]⟩
+
+theorem vectoriseAll_error (lt : String → String → Bool) (num : V → Option W) (cs : List (String × Snap V))
+    (e : String) (h : vectoriseAll lt num cs = .error e) : ∃ p ∈ cs, ∃ e', vectorise lt num p.2 = .error e' := by
+  induction cs generalizing e with
+  | nil => simp only [vectoriseAll] at h; cases h
+  | cons p r ih =>
+    obtain ⟨k, c⟩ := p
+    simp only [vectoriseAll] at h
+    cases hv : vectorise lt num c with
+    | error e' => exact ⟨(k, c), List.mem_cons_self .., e', hv⟩
+    | ok x =>
+      rw [hv] at h
+      simp only at h
+      cases hr : vectoriseAll lt num r with
+      | error e' =>
+        obtain ⟨p, hp, e'', he⟩ := ih e' hr
+        exact ⟨p, List.mem_cons_of_mem _ hp, e'', he⟩
+      | ok xs => rw [hr] at h; cases h
+
+/-- looking a field up in the record of a node = vectorising the child of that name -/
+theorem fieldOf_vectorise (lt : String → String → Bool) (hirr : ∀ a, lt a a = false) (num : V → Option W)
+    (cs : List (String × Snap V)) (row : VRow W) (h : vectorise lt num (.node cs) = .ok row) (k : String) :
+    (assoc k cs = none → fieldOf k row = none) ∧
+    (∀ c, assoc k cs = some c → ∃ x, vectorise lt num c = .ok x ∧ fieldOf k row = some x) := by
+  simp only [vectorise] at h
+  cases hr : vectoriseAll lt num cs with
+  | error e => rw [hr] at h; cases h
+  | ok fs =>
+    rw [hr] at h
+    simp only at h
+    cases h
+    simp only [fieldOf, assoc_sortFields lt hirr]
+    exact vectoriseAll_assoc lt num cs fs hr k
+
+/-! ## `homog` implies that the record can be built -/
+
+theorem checkNodes_all (keys0 : List String) (l : List (Snap V)) (h : checkNodes keys0 l = .ok ()) :
+    ∀ s ∈ l, ∃ cs, s = .node cs := by
+  induction l with
+  | nil => intro s hs; cases hs
+  | cons x r ih =>
+    cases x with
+    | val v => simp only [checkNodes] at h; cases h
+    | scale sc => simp only [checkNodes] at h; cases h
+    | node cs =>
+      simp only [checkNodes] at h
+      by_cases hk : sameKeys keys0 (cs.map (·.1)) = true
+      · rw [if_pos hk] at h
+        intro s hs
+        rcases List.mem_cons.mp hs with hs | hs
+        · exact ⟨cs, hs⟩
+        · exact ih h s hs
+      · rw [if_neg hk] at h; cases h
+
+theorem checkNums_all (num : V → Option W) (l : List (Snap V)) (h : checkNums num l = .ok ()) :
+    ∀ s ∈ l, ∃ v w, s = .val v ∧ num v = some w := by
+  induction l with
+  | nil => intro s hs; cases hs
+  | cons x r ih =>
+    cases x with
+    | node cs => simp only [checkNums] at h; cases h
+    | scale sc => simp only [checkNums] at h; cases h
+    | val v =>
+      simp only [checkNums] at h
+      cases hn : num v with
+      | none => rw [hn] at h; simp at h
+      | some w =>
+        rw [hn] at h
+        simp only [Option.isSome_some, if_true] at h
+        intro s hs
+        rcases List.mem_cons.mp hs with hs | hs
+        · exact ⟨v, w, hs, hn⟩
+        · exact ih h s hs
+
+theorem mem_pool {l : List (Snap V)} {cs : List (String × Snap V)} (h : Snap.node cs ∈ l)
+    {p : String × Snap V} (hp : p ∈ cs) : p.2 ∈ pool l := by
+  induction l with
+  | nil => cases h
+  | cons x r ih =>
+    simp only [pool, List.mem_append]
+    rcases List.mem_cons.mp h with h | h
+    · left; rw [← h]; simp only [kids, List.mem_map]; exact ⟨p, hp, rfl⟩
+    · right; exact ih h
+
+theorem homog_vectorise (lt : String → String → Bool) (num : V → Option W) (l : List (Snap V))
+    (h : homog num l = .ok ()) : ∀ s ∈ l, ∃ x, vectorise lt num s = .ok x := by
+  induction l using homog.induct (num := num) with
+  | case1 => simp only [homog] at h; cases h
+  | case2 cs rest e he => rw [homog, he] at h; cases h
+  | case3 cs rest he ih =>
+    rw [homog, he] at h
+    simp only at h
+    have hall := ih h
+    have hnodes : ∀ s ∈ Snap.node cs :: rest, ∃ cs', s = .node cs' := by
+      intro s hs
+      rcases List.mem_cons.mp hs with hs | hs
+      · exact ⟨cs, hs⟩
+      · exact checkNodes_all _ _ he s hs
+    intro s hs
+    obtain ⟨cs', rfl⟩ := hnodes s hs
+    obtain ⟨fs, hfs⟩ := vectoriseAll_ok lt num cs' (fun p hp => hall p.2 (mem_pool hs hp))
+    exact ⟨.record (sortFields lt fs), by simp only [vectorise, hfs]⟩
+  | case4 v rest hv =>
+    rw [homog, if_pos hv] at h
+    have := checkNums_all num rest h
+    intro s hs
+    rcases List.mem_cons.mp hs with hs | hs
+    · obtain ⟨w, hw⟩ := Option.isSome_iff_exists.mp hv
+      exact ⟨.leaf w, by rw [hs]; simp only [vectorise, hw]⟩
+    · obtain ⟨v', w, rfl, hw⟩ := this s hs
+      exact ⟨.leaf w, by simp only [vectorise, hw]⟩
+  | case5 v rest hv => rw [homog, if_neg hv] at h; cases h
+  | case6 sc rest => simp only [homog] at h; cases h
+
+/-- a homogeneous node can always be turned into a record -/
+theorem buildVec_ok_iff (lt : String → String → Bool) (num : V → Option W) (cs : List (String × Snap V)) :
+    (∃ row, buildVec lt num (.node cs) = .ok row) ↔ homog num (cs.map (·.2)) = .ok () := by
+  simp only [buildVec]
+  constructor
+  · rintro ⟨row, h⟩
+    cases hh : homog num (cs.map (·.2)) with
+    | error e => rw [hh] at h; cases h
+    | ok u => rfl
+  · intro hh
+    rw [hh]
+    simp only
+    have hall := homog_vectorise lt num _ hh
+    obtain ⟨fs, hfs⟩ := vectoriseAll_ok lt num cs (fun p hp => hall p.2 (List.mem_map.mpr ⟨p, hp, rfl⟩))
+    exact ⟨.record (sortFields lt fs), by simp only [vectorise, hfs]⟩
+
+theorem buildVec_eq (lt : String → String → Bool) (num : V → Option W) (cs : List (String × Snap V))
+    (row : VRow W) (h : buildVec lt num (.node cs) = .ok row) :
+    homog num (cs.map (·.2)) = .ok () ∧ vectorise lt num (.node cs) = .ok row := by
+  simp only [buildVec] at h
+  cases hh : homog num (cs.map (·.2)) with
+  | error e => rw [hh] at h; cases h
+  | ok u => rw [hh] at h; exact ⟨rfl, h⟩
+
+/-! ## Vector indexing row by row -/
+
+theorem broadcast_single (r : α) (ks : List β) (h : ks ≠ []) :
+    broadcast [r] ks = some (ks.map (fun k => (r, k))) := by
+  unfold broadcast
+  by_cases hl : [r].length = ks.length
+  · rw [if_pos hl]
+    cases ks with
+    | nil => exact absurd rfl h
+    | cons k t =>
+      cases t with
+      | nil => rfl
+      | cons k2 t2 => simp at hl
+  · rw [if_neg hl]
+
+theorem pickAll_single_some (r : VRow W) (ks : List String) (out : List (VRow W))
+    (h : pickAll (ks.map (fun k => (r, k))) = some out) :
+    out.length = ks.length ∧ ∀ i (hi : i < ks.length), fieldOf ks[i] r = out[i]? := by
+  induction ks generalizing out with
+  | nil => simp only [List.map_nil, pickAll] at h; cases h; exact ⟨rfl, fun i hi => (by cases hi)⟩
+  | cons k t ih =>
+    simp only [List.map_cons, pickAll] at h
+    cases hf : fieldOf k r with
+    | none => rw [hf] at h; simp at h
+    | some x =>
+      cases hp : pickAll (t.map (fun k => (r, k))) with
+      | none => rw [hf, hp] at h; simp at h
+      | some xs =>
+        rw [hf, hp] at h
+        simp only at h
+        cases h
+        obtain ⟨h1, h2⟩ := ih xs hp
+        refine ⟨by simp [h1], ?_⟩
+        intro i hi
+        cases i with
+        | zero => simpa using hf
+        | succ j => simpa using h2 j (by simpa using hi)
+
+theorem pickAll_single_none (r : VRow W) (ks : List String) :
+    pickAll (ks.map (fun k => (r, k))) = none ↔ ∃ k ∈ ks, fieldOf k r = none := by
+  induction ks with
+  | nil => simp [pickAll]
+  | cons k t ih =>
+    simp only [List.map_cons, pickAll, List.mem_cons, exists_eq_or_imp]
+    cases hf : fieldOf k r with
+    | none => simp
+    | some x =>
+      cases hp : pickAll (t.map (fun k => (r, k))) with
+      | none => simp only [true_iff]; right; exact ih.mp hp
+      | some xs =>
+        simp only [reduceCtorEq, false_iff, not_or, not_exists, not_and]
+        refine ⟨by simp, fun k' hk' hn => ?_⟩
+        have := ih.mpr ⟨k', hk', hn⟩
+        rw [hp] at this; cases this
+
+/-- indexing the one-row vector of a node by a key vector -/
+theorem vindex_single (row : VRow W) (ks : List String) :
+    (∀ out, vindex [row] ks = .ok out →
+      out.length = ks.length ∧ ∀ i (hi : i < ks.length), fieldOf ks[i] row = out[i]?) ∧
+    ((∃ e, vindex [row] ks = .error e) ↔ ks = [] ∨ ∃ k ∈ ks, fieldOf k row = none) := by
+  cases ks with
+  | nil =>
+    simp only [vindex]
+    exact ⟨fun out h => (by cases h), ⟨fun _ => (by simp), fun _ => ⟨_, rfl⟩⟩⟩
+  | cons k0 t =>
+    simp only [vindex]
+    cases hf0 : fieldOf k0 row with
+    | none =>
+      simp only [Option.isNone_none, if_true]
+      refine ⟨fun out h => (by cases h), ⟨fun _ => Or.inr ⟨k0, List.mem_cons_self .., hf0⟩, fun _ => ⟨_, rfl⟩⟩⟩
+    | some x0 =>
+      simp only [Option.isNone_some, Bool.false_eq_true, if_false]
+      rw [broadcast_single row (k0 :: t) (by simp)]
+      simp only
+      cases hp : pickAll ((k0 :: t).map (fun k => (row, k))) with
+      | none =>
+        simp only
+        refine ⟨fun out h => (by cases h), ⟨fun _ => Or.inr ((pickAll_single_none row _).mp hp), fun _ => ⟨_, rfl⟩⟩⟩
+      | some out =>
+        simp only
+        refine ⟨fun out' h => (by cases h; exact pickAll_single_some row _ out hp), ⟨?_, ?_⟩⟩
+        · rintro ⟨e, he⟩; cases he
+        · rintro (h | h)
+          · cases h
+          · have := (pickAll_single_none row _).mpr h
+            rw [hp] at this; cases this
+
+/-- `.name` on a vectorial node, row by row -/
+theorem vfield_spec (rows : List (VRow W)) (k : String) :
+    (∀ out, vfield rows k = .ok out →
+      out.length = rows.length ∧ ∀ i (hi : i < rows.length), fieldOf k rows[i] = out[i]?) ∧
+    ((∃ e, vfield rows k = .error e) ↔ ∃ r ∈ rows, fieldOf k r = none) := by
+  induction rows with
+  | nil =>
+    simp only [vfield]
+    exact ⟨fun out h => by cases h; exact ⟨rfl, fun i hi => (by cases hi)⟩, ⟨fun ⟨e, he⟩ => (by cases he), fun ⟨r, hr, _⟩ => (by cases hr)⟩⟩
+  | cons r rest ih =>
+    obtain ⟨ih1, ih2⟩ := ih
+    simp only [vfield]
+    cases hf : fieldOf k r with
+    | none =>
+      simp only
+      exact ⟨fun out h => (by cases h), ⟨fun _ => ⟨r, List.mem_cons_self .., hf⟩, fun _ => ⟨_, rfl⟩⟩⟩
+    | some x =>
+      cases hv : vfield rest k with
+      | error e =>
+        simp only
+        refine ⟨fun out h => (by cases h), ⟨fun _ => ?_, fun _ => ⟨_, rfl⟩⟩⟩
+        obtain ⟨r', hr', hn⟩ := ih2.mp ⟨e, hv⟩
+        exact ⟨r', List.mem_cons_of_mem _ hr', hn⟩
+      | ok xs =>
+        simp only
+        obtain ⟨h1, h2⟩ := ih1 xs hv
+        refine ⟨fun out h => ?_, ⟨fun ⟨e, he⟩ => (by cases he), ?_⟩⟩
+        · cases h
+          refine ⟨by simp [h1], ?_⟩
+          intro i hi
+          cases i with
+          | zero => simpa using hf
+          | succ j => simpa using h2 j (by simpa using hi)
+        · rintro ⟨r', hr', hn⟩
+          rcases List.mem_cons.mp hr' with hr' | hr'
+          · rw [hr', hf] at hn; cases hn
+          · have := ih2.mpr ⟨r', hr', hn⟩
+            obtain ⟨e, he⟩ := this
+            rw [hv] at he; cases he
+
+/-! ## As-of-date indexing -/
+
+theorem afterDates_eq (ns : List String) (h : ∀ a ∈ ns, isBefore a = false → (parseAfter a).isSome = true) :
+    afterDates ns = some ((ns.filter (fun n => !isBefore n)).map dateOf) := by
+  induction ns with
+  | nil => rfl
+  | cons n r ih =>
+    have ihr := ih (fun a ha => h a (List.mem_cons_of_mem _ ha))
+    simp only [afterDates]
+    cases hb : isBefore n with
+    | true => simp only [if_true, ihr, List.filter_cons, hb, Bool.not_true, Bool.false_eq_true, if_false]
+    | false =>
+      have hp := h n (List.mem_cons_self ..) hb
+      obtain ⟨dd, hdd⟩ := Option.isSome_iff_exists.mp hp
+      simp only [Bool.false_eq_true, if_false, hdd, ihr, List.filter_cons, hb, Bool.not_false, if_true,
+        List.map_cons, dateOf, Option.getD_some]
+
+theorem countLE_le_length (ds : List Int) (t : Int) : countLE ds t ≤ ds.length := by
+  induction ds with
+  | nil => simp [countLE]
+  | cons d r ih =>
+    simp only [countLE, List.length_cons]
+    by_cases h : d ≤ t
+    · rw [if_pos h]; omega
+    · rw [if_neg h]; omega
+
+theorem countLE_zero (ds : List Int) (t : Int) (h : ∀ d ∈ ds, t < d) : countLE ds t = 0 := by
+  induction ds with
+  | nil => rfl
+  | cons d r ih =>
+    simp only [countLE]
+    have h1 := h d (List.mem_cons_self ..)
+    rw [if_neg (by omega), ih (fun d' hd' => h d' (List.mem_cons_of_mem _ hd'))]
+
+theorem asofPick_spec (vals : List (VRow W)) (ads : List Int) (dates : List Int)
+    (hlen : ads.length < vals.length) :
+    ∃ out, asofPick vals ads dates = .ok out ∧ out.length = dates.length ∧
+      ∀ i (hi : i < dates.length), out[i]? = vals[countLE ads dates[i]]? := by
+  induction dates with
+  | nil => exact ⟨[], rfl, rfl, fun i hi => by cases hi⟩
+  | cons t r ih =>
+    obtain ⟨out, h1, h2, h3⟩ := ih
+    have hc := countLE_le_length ads t
+    have hlt : countLE ads t < vals.length := by omega
+    refine ⟨vals[countLE ads t] :: out, ?_, by simp [h2], ?_⟩
+    · simp only [asofPick, List.getElem?_eq_getElem hlt, h1]
+    · intro i hi
+      cases i with
+      | zero => simp [List.getElem?_eq_getElem hlt]
+      | succ j => simpa using h3 j (by simpa using hi)
+
+/-- `x` is in force at `t` among the base `b` and the dated `A` -/
+def InForceAt (b : String × β) (A : List (String × β)) (t : Int) (x : String × β) : Prop :=
+  (x = b ∧ ∀ a ∈ A, t < dateOf a.1) ∨
+  (x ∈ A ∧ dateOf x.1 ≤ t ∧ ∀ a ∈ A, dateOf a.1 ≤ t → dateOf a.1 ≤ dateOf x.1)
+
+/-- on a chronologically sorted field list, the number of dates `≤ t` is the position of the field
+    in force at `t` -/
+theorem chron_pick (b : String × β) (A : List (String × β)) (t : Int)
+    (hs : (A.map (fun a => dateOf a.1)).Pairwise (· < ·)) :
+    ∃ x, (b :: A)[countLE (A.map (fun a => dateOf a.1)) t]? = some x ∧ InForceAt b A t x := by
+  induction A generalizing b with
+  | nil => exact ⟨b, rfl, Or.inl ⟨rfl, fun a ha => by cases ha⟩⟩
+  | cons a A' ih =>
+    simp only [List.map_cons, List.pairwise_cons] at hs
+    obtain ⟨h1, h2⟩ := hs
+    have h1' : ∀ y ∈ A', dateOf a.1 < dateOf y.1 := fun y hy => h1 _ (List.mem_map.mpr ⟨y, hy, rfl⟩)
+    simp only [List.map_cons, countLE]
+    by_cases hle : dateOf a.1 ≤ t
+    · rw [if_pos hle]
+      obtain ⟨x, hx, hin⟩ := ih a h2
+      refine ⟨x, ?_, ?_⟩
+      · rw [Nat.add_comm, List.getElem?_cons_succ]; exact hx
+      · rcases hin with ⟨rfl, hall⟩ | ⟨hmem, hxt, hmax⟩
+        · refine Or.inr ⟨List.mem_cons_self .., hle, ?_⟩
+          intro y hy hyt
+          rcases List.mem_cons.mp hy with hy | hy
+          · rw [hy]; exact Int.le_refl _
+          · have := hall y hy; omega
+        · refine Or.inr ⟨List.mem_cons_of_mem _ hmem, hxt, ?_⟩
+          intro y hy hyt
+          rcases List.mem_cons.mp hy with hy | hy
+          · rw [hy]; have := h1' x hmem; omega
+          · exact hmax y hy hyt
+    · rw [if_neg hle]
+      have hz : countLE (A'.map (fun a => dateOf a.1)) t = 0 := by
+        apply countLE_zero
+        intro dd hdd
+        obtain ⟨y, hy, rfl⟩ := List.mem_map.mp hdd
+        have := h1' y hy; omega
+      rw [hz]
+      refine ⟨b, rfl, Or.inl ⟨rfl, ?_⟩⟩
+      intro y hy
+      rcases List.mem_cons.mp hy with hy | hy
+      · rw [hy]; omega
+      · have := h1' y hy; omega
+
+/-- a list sorted by `asofLt` with exactly one `before…` name starts with it -/
+theorem asof_sorted_shape (L : List (String × β)) (hs : L.Pairwise (NotAfter asofLt))
+    (hone : (L.filter (fun p => isBefore p.1)).length = 1) :
+    ∃ b A, L = b :: A ∧ isBefore b.1 = true ∧ ∀ a ∈ A, isBefore a.1 = false := by
+  cases L with
+  | nil => simp at hone
+  | cons x r =>
+    rw [List.pairwise_cons] at hs
+    cases hb : isBefore x.1 with
+    | true =>
+      refine ⟨x, r, rfl, hb, ?_⟩
+      rw [List.filter_cons_of_pos (by simpa using hb)] at hone
+      simp only [List.length_cons, Nat.add_right_cancel_iff, Nat.succ.injEq] at hone
+      have hnil : r.filter (fun p => isBefore p.1) = [] := List.eq_nil_of_length_eq_zero (by omega)
+      intro a ha
+      cases hba : isBefore a.1 with
+      | false => rfl
+      | true =>
+        have : a ∈ r.filter (fun p => isBefore p.1) := List.mem_filter.mpr ⟨ha, by simpa using hba⟩
+        rw [hnil] at this; cases this
+    | false =>
+      exfalso
+      rw [List.filter_cons_of_neg (by simpa using hb)] at hone
+      have hpos : 0 < (r.filter (fun p => isBefore p.1)).length := by omega
+      obtain ⟨y, hy⟩ := List.exists_mem_of_length_pos hpos
+      obtain ⟨hyr, hyb⟩ := List.mem_filter.mp hy
+      have hyb' : isBefore y.1 = true := by simpa using hyb
+      have := hs.1 y hyr
+      unfold NotAfter asofLt at this
+      rw [hyb', hb] at this
+      simp at this
+
+theorem chron_of_sorted (A : List (String × β)) (hs : A.Pairwise (NotAfter asofLt))
+    (hnb : ∀ a ∈ A, isBefore a.1 = false) (hnd : (A.map (·.1)).Nodup)
+    (hord : ∀ a ∈ A, ∀ b ∈ A, dateOf a.1 < dateOf b.1 → a.1 < b.1)
+    (hinj : ∀ a ∈ A, ∀ b ∈ A, dateOf a.1 = dateOf b.1 → a.1 = b.1) :
+    (A.map (fun a => dateOf a.1)).Pairwise (· < ·) := by
+  rw [List.pairwise_map]
+  have hne : A.Pairwise (fun x y => x.1 ≠ y.1) := List.pairwise_map.mp hnd
+  refine List.Pairwise.imp_of_mem ?_ (hs.and hne)
+  intro x y hx hy hxy
+  obtain ⟨h1, h2⟩ := hxy
+  unfold NotAfter asofLt at h1
+  rw [hnb x hx, hnb y hy] at h1
+  simp only [if_true, decide_eq_false_iff_not] at h1
+  have h3 : ¬ dateOf y.1 < dateOf x.1 := fun c => h1 (hord y hy x hx c)
+  have h4 : dateOf x.1 ≠ dateOf y.1 := fun c => h2 (hinj x hx y hy c)
+  omega
+
+theorem inForce_of_inForceAt (names : List String) (b : String × β) (A : List (String × β)) (t : Int)
+    (x : String × β) (hnames : ∀ a, a ∈ names ↔ ∃ p ∈ b :: A, p.1 = a)
+    (hb : isBefore b.1 = true) (hA : ∀ a ∈ A, isBefore a.1 = false) (h : InForceAt b A t x) :
+    InForce names t x.1 := by
+  have hafter : ∀ a ∈ names, isBefore a = false → ∃ p ∈ A, p.1 = a := by
+    intro a ha hab
+    obtain ⟨p, hp, rfl⟩ := (hnames a).mp ha
+    rcases List.mem_cons.mp hp with hp | hp
+    · rw [hp, hb] at hab; cases hab
+    · exact ⟨p, hp, rfl⟩
+  rcases h with ⟨rfl, hall⟩ | ⟨hmem, hxt, hmax⟩
+  · refine ⟨(hnames _).mpr ⟨x, List.mem_cons_self .., rfl⟩, Or.inl ⟨hb, ?_⟩⟩
+    intro a ha hab
+    obtain ⟨p, hp, rfl⟩ := hafter a ha hab
+    exact hall p hp
+  · refine ⟨(hnames _).mpr ⟨x, List.mem_cons_of_mem _ hmem, rfl⟩, Or.inr ⟨hA x hmem, hxt, ?_⟩⟩
+    intro a ha hab hat
+    obtain ⟨p, hp, rfl⟩ := hafter a ha hab
+    exact hmax p hp hat
+
+/-- As-of-date indexing of a homogeneous group whose names are in the claim domain: one element per
+    date, each the vectorised value of the child in force at that date — whatever the declaration
+    order of the children. -/
+theorem asof_spec (num : V → Option W) (cs : List (String × Snap V)) (dates : List Int)
+    (hwf : AsofWF (cs.map (·.1))) (hh : homog num (cs.map (·.2)) = .ok ()) :
+    ∃ out, asof num (.node cs) dates = .ok out ∧ out.length = dates.length ∧
+      ∀ i (hi : i < dates.length), ∃ k c x, (k, c) ∈ cs ∧ vectorise asofLt num c = .ok x ∧
+        out[i]? = some x ∧ InForce (cs.map (·.1)) dates[i] k := by
+  obtain ⟨hnd, hone, htwo, hparse, hord, hinj⟩ := hwf
+  obtain ⟨row, hrow⟩ := (buildVec_ok_iff asofLt num cs).mpr hh
+  obtain ⟨_, hvec⟩ := buildVec_eq asofLt num cs row hrow
+  simp only [vectorise] at hvec
+  cases hfs : vectoriseAll asofLt num cs with
+  | error e => rw [hfs] at hvec; cases hvec
+  | ok fs =>
+    rw [hfs] at hvec
+    simp only at hvec
+    cases hvec
+    have hkeys := vectoriseAll_keys asofLt num cs fs hfs
+    have hperm := perm_sortFields asofLt fs
+    have hsorted := sorted_sortFields asofLt asofLt_asymm asofLt_trans fs
+    -- names of the sorted fields = the child names, up to order
+    have hpn : ((sortFields asofLt fs).map (·.1)).Perm (cs.map (·.1)) := by
+      rw [← hkeys]; exact hperm.map _
+    have hone' : ((sortFields asofLt fs).filter (fun p => isBefore p.1)).length = 1 := by
+      have h1 : (((sortFields asofLt fs).map (·.1)).filter isBefore).length = 1 := by
+        rw [(hpn.filter isBefore).length_eq]; exact hone
+      rw [List.filter_map, List.length_map] at h1
+      exact h1
+    obtain ⟨b, A, hS, hb, hA⟩ := asof_sorted_shape _ hsorted hone'
+    have hmemS : ∀ p, p ∈ b :: A ↔ p ∈ fs := by intro p; rw [← hS]; exact hperm.mem_iff
+    have hnames : ∀ a, a ∈ cs.map (·.1) ↔ ∃ p ∈ b :: A, p.1 = a := by
+      intro a
+      rw [← hpn.mem_iff, hS, List.mem_map]
+    have hAin : ∀ a ∈ A, a.1 ∈ cs.map (·.1) := fun a ha => (hnames a.1).mpr ⟨a, List.mem_cons_of_mem _ ha, rfl⟩
+    have hsA : A.Pairwise (NotAfter asofLt) := by rw [hS] at hsorted; exact (List.pairwise_cons.mp hsorted).2
+    have hndS : ((b :: A).map (·.1)).Nodup := by rw [← hS]; exact hpn.nodup_iff.mpr hnd
+    have hndA : (A.map (·.1)).Nodup := by
+      simp only [List.map_cons, List.nodup_cons] at hndS; exact hndS.2
+    have hchron := chron_of_sorted A hsA hA hndA
+      (fun x hx y hy => hord x.1 (hAin x hx) y.1 (hAin y hy) (hA x hx) (hA y hy))
+      (fun x hx y hy => hinj x.1 (hAin x hx) y.1 (hAin y hy) (hA x hx) (hA y hy))
+    -- the dates of the `after_` fields, in field order
+    have hads : afterDates ((b :: A).map (·.1)) = some (A.map (fun a => dateOf a.1)) := by
+      rw [afterDates_eq]
+      · congr 1
+        simp only [List.map_cons, List.filter_cons, hb, Bool.not_true, Bool.false_eq_true, if_false]
+        have : (A.map (·.1)).filter (fun n => !isBefore n) = A.map (·.1) := by
+          rw [List.filter_eq_self]
+          intro n hn
+          obtain ⟨a, ha, rfl⟩ := List.mem_map.mp hn
+          simp [hA a ha]
+        rw [this, List.map_map]; rfl
+      · intro a ha hab
+        obtain ⟨p, hp, rfl⟩ := List.mem_map.mp ha
+        exact hparse p.1 ((hnames p.1).mpr ⟨p, hp, rfl⟩) hab
+    have hlenS : (b :: A).length = cs.length := by
+      have := hpn.length_eq
+      rw [hS] at this
+      simpa using this
+    have hApos : A ≠ [] := by
+      intro c
+      rw [c] at hlenS
+      simp only [List.length_cons, List.length_nil, List.length_map] at hlenS htwo
+      omega
+    obtain ⟨out, ho1, ho2, ho3⟩ := asofPick_spec ((b :: A).map (·.2)) (A.map (fun a => dateOf a.1)) dates
+      (by simp)
+    refine ⟨out, ?_, ho2, ?_⟩
+    · simp only [asof, hrow, asofIndex]
+      rw [hS, hads]
+      cases A with
+      | nil => exact absurd rfl hApos
+      | cons a0 A0 => simpa using ho1
+    · intro i hi
+      obtain ⟨x, hx, hin⟩ := chron_pick b A dates[i] hchron
+      have hxS : x ∈ b :: A := List.mem_of_getElem? hx
+      obtain ⟨c, hc, hcx⟩ := (vectoriseAll_mem asofLt num cs fs hfs x.1 x.2).mp ((hmemS x).mp hxS)
+      refine ⟨x.1, c, x.2, hc, hcx, ?_, inForce_of_inForceAt _ b A _ x hnames hb hA hin⟩
+      rw [ho3 i hi, List.getElem?_map, hx]
+      rfl
+
+/-- Vector indexing of a node at an instant by (stringified) keys: one row per key, the vectorised
+    child of that name; the exact error condition. -/
+theorem fancy_spec (num : V → Option W) (cs : List (String × Snap V)) (ks : List String) :
+    (∀ rows, fancy num (.node cs) ks = .ok rows →
+      rows.length = ks.length ∧
+      ∀ i (hi : i < ks.length), ∃ c x, assoc ks[i] cs = some c ∧ vectorise plainLt num c = .ok x ∧ rows[i]? = some x) ∧
+    ((∃ e, fancy num (.node cs) ks = .error e) ↔
+      homog num (cs.map (·.2)) ≠ .ok () ∨ ks = [] ∨ ∃ k ∈ ks, assoc k cs = none) := by
+  simp only [fancy]
+  cases hb : buildVec plainLt num (.node cs) with
+  | error e =>
+    have hne : homog num (cs.map (·.2)) ≠ .ok () := by
+      intro c
+      obtain ⟨row, hrow⟩ := (buildVec_ok_iff plainLt num cs).mpr c
+      rw [hrow] at hb; cases hb
+    simp only
+    exact ⟨fun rows h => (by cases h), ⟨fun _ => Or.inl hne, fun _ => ⟨_, rfl⟩⟩⟩
+  | ok row =>
+    obtain ⟨hh, hvec⟩ := buildVec_eq plainLt num cs row hb
+    have hf := fieldOf_vectorise plainLt plainLt_irrefl num cs row hvec
+    obtain ⟨h1, h2⟩ := vindex_single row ks
+    simp only
+    refine ⟨fun rows h => ?_, ?_⟩
+    · obtain ⟨hl, hrows⟩ := h1 rows h
+      refine ⟨hl, fun i hi => ?_⟩
+      have hri := hrows i hi
+      cases hc : assoc ks[i] cs with
+      | none =>
+        rw [(hf ks[i]).1 hc] at hri
+        have : i < rows.length := by omega
+        rw [List.getElem?_eq_getElem this] at hri; cases hri
+      | some c =>
+        obtain ⟨x, hx, hfx⟩ := (hf ks[i]).2 c hc
+        exact ⟨c, x, rfl, hx, by rw [← hri, hfx]⟩
+    · rw [h2]
+      constructor
+      · rintro (h | ⟨k, hk, hn⟩)
+        · exact Or.inr (Or.inl h)
+        · refine Or.inr (Or.inr ⟨k, hk, ?_⟩)
+          cases hc : assoc k cs with
+          | none => rfl
+          | some c =>
+            obtain ⟨x, _, hfx⟩ := (hf k).2 c hc
+            rw [hfx] at hn; cases hn
+      · rintro (h | h | ⟨k, hk, hn⟩)
+        · exact absurd hh h
+        · exact Or.inl h
+        · exact Or.inr ⟨k, hk, (hf k).1 hn⟩
+
+/-- a sub-node reached by name after a vector index (`P[keys].name`): row by row, the vectorised
+    grand-child -/
+theorem fancy_field_spec (num : V → Option W) (cs : List (String × Snap V)) (ks : List String) (f : String)
+    (rows rows' : List (VRow W)) (h : fancy num (.node cs) ks = .ok rows) (h' : vfield rows f = .ok rows') :
+    rows'.length = ks.length ∧
+    ∀ i (hi : i < ks.length), ∃ cs' c' x, assoc ks[i] cs = some (.node cs') ∧ assoc f cs' = some c' ∧
+      vectorise plainLt num c' = .ok x ∧ rows'[i]? = some x := by
+  obtain ⟨hl, hrows⟩ := (fancy_spec num cs ks).1 rows h
+  obtain ⟨hl', hf⟩ := (vfield_spec rows f).1 rows' h'
+  refine ⟨by omega, fun i hi => ?_⟩
+  obtain ⟨c, x, hc, hx, hri⟩ := hrows i hi
+  have hi' : i < rows.length := by omega
+  have hfi := hf i hi'
+  have hxi : rows[i] = x := by
+    rw [List.getElem?_eq_getElem hi'] at hri; exact Option.some.inj hri
+  have hi'' : i < rows'.length := by omega
+  rw [List.getElem?_eq_getElem hi'', hxi] at hfi
+  cases c with
+  | val v =>
+    simp only [vectorise] at hx
+    cases hn : num v with
+    | none => rw [hn] at hx; cases hx
+    | some w => rw [hn] at hx; cases hx; simp [fieldOf] at hfi
+  | scale sc => simp only [vectorise] at hx; cases hx
+  | node cs' =>
+    have hfv := fieldOf_vectorise plainLt plainLt_irrefl num cs' x hx f
+    cases hc' : assoc f cs' with
+    | none => rw [hfv.1 hc'] at hfi; cases hfi
+    | some c' =>
+      obtain ⟨y, hy, hfy⟩ := hfv.2 c' hc'
+      rw [hfy] at hfi
+      refine ⟨cs', c', y, hc, hc', hy, ?_⟩
+      rw [List.getElem?_eq_getElem hi'', ← Option.some.inj hfi]
+
 end OFCore.PView
